@@ -480,6 +480,15 @@ def run(ctx, chk, tier="quick"):
                            "storms and rises are runs of the whole gap-free stretch read by the series query",
                            key="match_all_storms|series-cut|%s" % a_.id,
                            why="a run that begins before the kept part is recorded from the first kept sample on: it is no longer maximal (a rise that starts one step before the first rain of the stretch)")
+                elif isinstance(st_, ast.Assign) and any(
+                        isinstance(c_, ast.Call) and (((isinstance(c_.func, ast.Attribute) and c_.func.attr in ("round", "around", "round_", "rint", "floor", "ceil", "trunc", "clip", "fix")))
+                                                      or (isinstance(c_.func, ast.Name) and c_.func.id == "round"))
+                        and any(isinstance(x_, ast.Name) and x_.id.endswith(a_.id) for x_ in ast.walk(c_))
+                        for c_ in ast.walk(maflow.expand(v_, keep={a_.id}) if v_ is not None else ast.Constant(value=0))):
+                    chk.ob("C03.O1", False, where_of(mas, st_), "%s is rounded before the runs are computed: %s" % (a_.id, ast.unparse(st_)[:70]),
+                           "the thresholds are compared with the stored intensities and level increments themselves",
+                           key="match_all_storms|series-rounded|%s" % a_.id, local=True,
+                           why="an increment that is above the threshold in the stored record can round to exactly the threshold (or below): the recorded rise is cut or split and is no longer a maximal above-threshold run of the stored series")
                 elif st_ is not None:
                     chk.indeterminate("C03.O1", where_of(mas, st_), "%s is rebound between the series query and match_storms (%s): not read" % (a_.id, ast.unparse(st_)[:60]))
         rt_role = roles.get((mas.fq, a_rt.id)) if isinstance(a_rt, ast.Name) and maflow.is_param(a_rt) else None
